@@ -53,6 +53,20 @@ CHECKS['C06'] = {
     'design': 'DESIGN.md section 3 C06',
 }
 
+CHECKS['C01'] = {
+    'technique': 'machine-checked proof in Coq (invariant over a labelled transition system of the router, all schedules) + trace-acceptor correspondence against the real router under scripted mocks',
+    'text': ("pubsub::Topic::poll, FanoutMany and StreamMap::poll_next are modelled as an executable transition system whose observable events are the calls on peer "
+             "sinks/streams and their answers. Coq proves for EVERY accepted trace (any numbers of publishers/subscribers, any registration order, any Ready/Pending/Err/"
+             "item/end answers, any StreamMap start index): each subscriber receives a prefix of exactly the items pulled since its registration was processed - in order, "
+             "contiguous, none duplicated or skipped - a live one misses at most the item in flight; no panic; and a poll in which no sink answers Pending returns only "
+             "after everything pulled was delivered and flushed (from every reachable state). The real Topic future is driven with scripted mock peers under a busy and a "
+             "wake-driven executor; every implementation trace must be accepted event-for-event by the extracted model (including predicted wake-up bits), and the "
+             "property predicates are evaluated on the implementation traces themselves. Cross-topic isolation: routers are separate objects selected by TopicName "
+             "(C07 proves printing injective); over QUIC it is exercised by the net scenarios."),
+    'note': "Modelled, not verified: StreamMap 0.1.14, futures::mpsc receiver/waker discipline, Vec::swap_remove (validated by the acceptor). Payloads abstract (the router only clones).",
+    'design': 'DESIGN.md section 3 C01',
+}
+
 ALL = ['C%02d' % i for i in range(1, 18)]
 
 PENDING_REASON = "check under construction in this session (model and harness not yet committed); it will be claimed once its check is committed"
